@@ -219,6 +219,17 @@ func encodeTop(vc *VC, fn *ssa.Function, d *Decl) []inputVar {
 			target = strings.TrimSpace(target[:j])
 		}
 		var rsig *types.Signature
+		if target == "append" { // a builtin: only called(x) is available before the call is encoded
+			if fr.bindVals == nil {
+				fr.bindVals = map[string]sval{}
+			}
+			for _, n := range strings.Split(c.Text[:i], ",") {
+				if n = strings.TrimSpace(n); n != "_" && n != "" {
+					fr.bindVals[n+"$called"] = sval{t: "false", typ: boolT}
+				}
+			}
+			continue
+		}
 		if callee := vc.P.ResolveFunc(fnPkgName(fn), target); callee != nil {
 			rsig = callee.Signature
 		} else if sg := vc.P.anyIfaceMethodSig(target); sg != nil {
